@@ -30,7 +30,7 @@ from types import FrameType
 from typing import Tuple, TYPE_CHECKING, List, Deque, Optional
 
 from deep import logging
-from deep.api.tracepoint.trigger import Trigger
+from deep.api.tracepoint.trigger import Trigger, LocationAction
 from deep.config import ConfigService
 from deep.config.tracepoint_config import ConfigUpdateListener
 from deep.processor.context.callback_context import CallbackContext
@@ -200,7 +200,8 @@ class TriggerHandler:
             return self._trace_call(frame, event, arg)
         except BaseException:
             try:
-                logging.exception("Cannot process trace event %s", event)
+                with _UnknownThread():
+                    logging.exception("Cannot process trace event %s", event)
             except BaseException:
                 # e.g. the application is close to the recursion limit: there is no room left, not even to log
                 pass
@@ -257,7 +258,28 @@ class TriggerHandler:
 
         with _UnknownThread():
             self.__process_actions(trigger_context, actions, frame, event, file, line, function)
+        if any(action.condition or action.action_type != LocationAction.ActionType.Span for action in actions):
+            # (these look at the variables of the frame: a span alone does not, and is not made to)
+            self.__refresh_locals(frame)
         return self.trace_call
+
+    @staticmethod
+    def __refresh_locals(frame: FrameType):
+        """
+        Read the variables of the frame again, as the last thing before we give it back.
+
+        Up to python 3.12 the variables of a frame are copied into a mapping before a trace function is called, and
+        written back into the frame from that mapping when it returns. We have taken our time in between (collecting a
+        snapshot, delivering it): what another thread has written to a variable the function shares with it (a closure
+        cell) meanwhile would be overwritten with the value from before our call. Reading f_locals copies the current
+        values into the mapping, so that what is written back is what is there.
+
+        :param frame: the frame of the event
+        """
+        try:
+            frame.f_locals
+        except BaseException:
+            pass
 
     def __process_actions(self, trigger_context, actions, frame, event, file, line, function):
         try:
